@@ -80,6 +80,11 @@ fn run_history(prop: &str, input: &T) -> T {
             let pos = rng.below(txs.len() as u64 + 1) as usize;
             txs.insert(pos, t);
         }
+        if !w.retry_txs.is_empty() && rng.chance(1, 2) {
+            let t = w.retry_txs[rng.below(w.retry_txs.len() as u64) as usize].clone();
+            let pos = rng.below(txs.len() as u64 + 1) as usize;
+            txs.insert(pos, t);
+        }
         let policy = match rng.below(8) {
             0..=2 => Policy::All,
             3 => Policy::Count,
